@@ -158,23 +158,82 @@ def parse_type(node: ast.expr | str | None, known_class=lambda n: None) -> T:
 # ---------------------------------------------------------------------------
 # Values
 # ---------------------------------------------------------------------------
-@dataclass
+CUR: list = [None]      # the State being executed (set by the executor); list snapshots live per state
+
+
 class V:
-    t: Any                       # z3 term of sort Val (None for kind 'py')
-    ty: T = ANY
-    items: list | None = None    # tuple of known arity: list[V]
-    py: Any = None               # executor-level object (module path, class, function, bound method...)
-    lit: Any = None              # concrete python constant when known (str / int / float / bool)
-    tok: list | None = None      # string built by an f-string: list of str | V
-    raw: Any = None              # exact z3 Int term of an int-kinded value
-    tail: list | None = None     # list value: the known last elements (Python-side structure)
+    """Symbolic value: z3 term of sort Val + Python-side knowledge.
+
+    For LIST values the concrete snapshots (`items`: all elements, `tail`: known last elements)
+    are stored in the State that is being executed (State.snap, keyed by the list reference), not
+    in this object, because V objects are shared between forked states."""
+    __slots__ = ('t', 'ty', '_items', 'py', 'lit', 'tok', 'raw', '_tail')
+
+    def __init__(self, t, ty=None, items=None, py=None, lit=None, tok=None, raw=None, tail=None):
+        self.t = t
+        self.ty = ty if ty is not None else ANY
+        self._items = None
+        self._tail = None
+        self.py = py
+        self.lit = lit
+        self.tok = tok
+        self.raw = raw
+        if items is not None:
+            self.items = items
+        if tail is not None:
+            self.tail = tail
 
     @property
     def kind(self):
         return self.ty.kind
 
+    def _rid(self):
+        t = self.t
+        if z3.is_app(t) and t.decl().eq(Val.ref):
+            return t.arg(0).get_id()
+        return ('v', t.get_id())
+
+    def _is_list(self):
+        return self.ty.kind == 'list' and self.t is not None and CUR[0] is not None
+
+    @property
+    def items(self):
+        if self._is_list():
+            sn = CUR[0].snap.get(self._rid())
+            return sn[0] if sn else None
+        return self._items
+
+    @items.setter
+    def items(self, val):
+        if self._is_list():
+            sn = CUR[0].snap.get(self._rid())
+            CUR[0].snap[self._rid()] = (val, None if val is not None else (sn[1] if sn else None))
+        else:
+            self._items = val
+
+    @property
+    def tail(self):
+        if self._is_list():
+            sn = CUR[0].snap.get(self._rid())
+            return sn[1] if sn else None
+        return self._tail
+
+    @tail.setter
+    def tail(self, val):
+        if self._is_list():
+            sn = CUR[0].snap.get(self._rid())
+            CUR[0].snap[self._rid()] = (sn[0] if sn else None, val)
+        else:
+            self._tail = val
+
     def with_ty(self, ty: T) -> 'V':
-        return replace(self, ty=ty)
+        v = V(self.t, ty, None, self.py, self.lit, self.tok, self.raw, None)
+        v._items = self._items
+        v._tail = self._tail
+        return v
+
+    def __repr__(self):
+        return f'V({self.ty!r}, {str(self.t)[:60]})'
 
 
 _fresh_ctr = [0]
